@@ -886,6 +886,11 @@ func concurrentPart(c *vh.Ctx) {
 	if failed {
 		return
 	}
+	// the whole surface of the guarded maps (derived from runtime/vm.go): file loads, compiled files and
+	// RegisterGlobalContext ∥ `global` lookups and the registry calls
+	if !surfacePart(c, "") || !globalsPart(c, self, false) {
+		return
+	}
 	// forced overlap: first lookups of a fresh name released together with its registration
 	if !overlapPart(c, self, false) {
 		return
@@ -945,6 +950,9 @@ func concurrentPart(c *vh.Ctx) {
 				return
 			}
 		}
+	}
+	if !globalsPart(c, rb, true) {
+		return
 	}
 	if !overlapPart(c, rb, true) {
 		return
@@ -1021,6 +1029,27 @@ func Run(c *vh.Ctx) {
 			}
 			for i := 0; i < 20; i++ {
 				if !overlapOnce(c, bin, cfg) {
+					break
+				}
+				cfg.Seed++
+			}
+		case "api":
+			var ac apiCase
+			json.Unmarshal(c.ReplayRaw, &ac)
+			surfacePart(c, ac.Method)
+		case "globals":
+			var cfg globalsCfg
+			json.Unmarshal(c.ReplayRaw, &cfg)
+			bin := vh.Self()
+			if cfg.Race {
+				if rb, err := buildRace(c); err == nil {
+					bin = rb
+				} else {
+					c.Note("race build failed: %v", err)
+				}
+			}
+			for i := 0; i < 20; i++ {
+				if !globalsOnce(c, bin, cfg) {
 					break
 				}
 				cfg.Seed++
